@@ -352,13 +352,26 @@ func checkC19(p *Prog, r *Report) {
 		if fn.Signature.Results().Len() != 1 || !isNamed(derefType(fn.Signature.Results().At(0).Type()), "model", "ScaledNumberType") {
 			continue
 		}
+		fn := fn
+		p.InScope(fn, func() {
+			c19FormatFloat(p, r, fn, &idx, &nFmt)
+		})
+	}
+	r.Floor("R6", "FormatFloat calls", nFmt, 1)
+	r.Assumes("time.Format/ParseInLocation and the period library are inverse for the layouts and values in range — this is the undecided bulk of the property")
+}
+
+// c19FormatFloat: the FormatFloat calls of a scaled-number constructor and of its extracted helpers.
+func c19FormatFloat(p *Prog, r *Report, fn *ssa.Function, pidx, pnFmt *int) {
+	{
 		forEachCall(fn, func(site ssa.CallInstruction) {
 			callee := site.Common().StaticCallee()
 			if callee == nil || fnPkgPath(callee) != "strconv" || callee.Name() != "FormatFloat" {
 				return
 			}
-			idx++
-			nFmt++
+			*pidx++
+			*pnFmt++
+			idx := *pidx
 			args := site.Common().Args
 			want := int64(64)
 			if cv, ok := args[0].(*ssa.Convert); ok {
@@ -373,8 +386,6 @@ func checkC19(p *Prog, r *Report) {
 			r.Check("R6", fmt.Sprintf("%s|FormatFloat#%d", FnName(fn), idx), ok, p.InstrPos(site), fmt.Sprintf("format %q precision %d bitSize %d (value is a %d-bit float): a smaller bit size renders the nearest float32, which has fewer decimals than the value", rune(fmtc), prec, bits, want))
 		})
 	}
-	r.Floor("R6", "FormatFloat calls", nFmt, 1)
-	r.Assumes("time.Format/ParseInLocation and the period library are inverse for the layouts and values in range — this is the undecided bulk of the property")
 }
 
 func stripConv(v ssa.Value) ssa.Value {
